@@ -400,9 +400,9 @@ class Printer:
             return
         if k == 'if':
             first = True
-            for cond, body in s['arms']:
+            for i, (cond, body) in enumerate(s['arms']):
                 self.emit(depth, ('if ' if first else 'elseif ') + pe(cond) + ' then',
-                          sid if first else None)
+                          sid if first else f'{sid}.arm{i}')
                 first = False
                 self.stmts(body, depth + 1)
             if s.get('els') is not None:
@@ -416,7 +416,7 @@ class Printer:
                 h += ' step ' + pe(s['step'])
             self.emit(depth, h, sid)
             self.stmts(s['body'], depth + 1)
-            self.emit(depth, 'next' + (' ' + s['var'] if s.get('nextvar') else ''))
+            self.emit(depth, 'next' + (' ' + s['var'] if s.get('nextvar') else ''), f'{sid}.next')
             return
         if k == 'while':
             self.emit(depth, 'while ' + pe(s['cond']), sid)
@@ -432,11 +432,11 @@ class Printer:
             t = 'loop'
             if s.get('post'):
                 t += ' ' + s['post'][0] + ' ' + pe(s['post'][1])
-            self.emit(depth, t)
+            self.emit(depth, t, f'{sid}.loop')
             return
         if k == 'select':
             self.emit(depth, 'select case ' + pe(s['e']), sid)
-            for tests, body in s['cases']:
+            for ci, (tests, body) in enumerate(s['cases']):
                 ts = []
                 for t in tests:
                     if t[0] == 'eq':
@@ -445,7 +445,7 @@ class Printer:
                         ts.append(pe(t[1]) + ' to ' + pe(t[2]))
                     else:
                         ts.append('is ' + t[1] + ' ' + pe(t[2]))
-                self.emit(depth, 'case ' + ', '.join(ts))
+                self.emit(depth, 'case ' + ', '.join(ts), f'{sid}.case{ci}')
                 self.stmts(body, depth + 1)
             if s.get('els') is not None:
                 self.emit(depth, 'case else')
